@@ -210,27 +210,41 @@ PROPS = {
  },
  "C06": {
   "modules": ["OsmoVerif.Props.C06"],
-  "min_theorems": 26,
+  "min_theorems": 28,
   "fingerprints": [],
   "engines": [{"name": "lockup", "kind": "app", "n": {"quick": 4000, "thorough": 40000}, "shards": {"quick": 4, "thorough": 16}, "env": NO_EXPORT_IMPORT}],
-  "rule": "histories of 25-95 transactions: 3 owners (+ a stranger), 3 denominations, 5 durations (two 1ns apart; many locks share a duration key), "
+  "rule": "histories of 25-115 transactions: 3 owners (+ a stranger), 3 denominations (+ 1-2 CL share denominations cl/pool/<id> in a third of the histories), "
+          "history class few-durations (5 durations, two 1ns apart; many locks share a duration key) or many-durations (a third of the histories: 11-25 pairwise "
+          "distinct durations, more than the accumulation tree's fan-out, most locks in one focus denomination, one lock per duration first in ascending / "
+          "descending / shuffled order, then whole (denomination, duration) buckets drained: begin-unlock in full or in parts that sum to the total, time advance "
+          "to the bucket's last end time, unlock / withdraw / extend away); amount units 1 .. 2^241; duration bases seconds .. 30y; "
           "monotone block times incl. no advance, +1ns, exactly on / 1ns before an end time; MsgLockTokens (create or add-to-existing), keeper "
           "AddTokensToLockByID (also on unlocking locks), MsgExtendLockup, MsgBeginUnlocking (full, exact, partial -> split, too much, wrong denom, "
           "wrong owner), MsgBeginUnlockingAll, UnlockMaturedLock, WithdrawMaturedLocks(0/1/2/1000), MsgSetRewardReceiverAddress, MsgForceUnlock "
-          "(whitelisted or not, full/partial), malformed messages; every call in a cache context written on success only; an evaluation is one op "
-          "line (transaction or query observation); VERIF_OPS counts transactions; after EVERY transaction the oracle recomputes from its own "
-          "shadow lock list: lock records, module balance, per-owner conservation, accumulation for every duration of the closure +-1, the whole "
-          "reference index decoded from the KV store, and 15 keeper queries for every owner x denom with sampled durations/times of the closure",
-  "trusted_base": ["cosmos-sdk bank keeper (modelled as a ledger)", "osmoutils/sumtree Increase/Decrease/SubsetAccumulation (modelled as a map; C16)",
-                   "byte encoding of the index keys is order-preserving and prefix-free (symbolic keys in the model; the engine decodes every real key)"],
-  "assumptions": ["synthetic locks (superfluid) and CL-share denominations are not modelled; locks with synthetic locks cannot begin unlocking and are left out of the generator",
-                  "theorems cover message-reachable states: one denomination per lock (MsgLockTokens.ValidateBasic); keeper CreateLock with several denominations "
+          "(whitelisted or not, full/partial), CL share locks created by the CL keeper (CreateFullRangePositionLocked / ...Unlocking -> mint + CreateLockNoSend) and "
+          "then begun, split, extended, force-unlocked, withdrawn (burned) like any lock, malformed messages; every call in a cache context written on success "
+          "only; an evaluation is one op line (transaction or query observation); VERIF_OPS counts transactions; after EVERY transaction the oracle recomputes "
+          "from its own shadow lock list: lock records, module balance, per-owner conservation (CL shares: supply = locked, no account holds any), the "
+          "accumulation of EVERY denomination at every duration any lock of the history ever had, each +-1ns, midpoints between neighbours, 0, -1, 2*max, MaxInt64 "
+          "(each query under catch: a panic is a failing input), the coin-sum queries (module locked, account locked/unlocking/unlockable), the whole reference "
+          "index decoded from the KV store, and 15 keeper list queries for every owner x denom with sampled durations/times of the closure; 60% of the histories end "
+          "with an oracle-only keeper tail (not replayed by the model): synthetic locks (create / delete / matured deletion in the EndBlocker order, refused "
+          "begin-unlock / extend / force-unlock messages), keeper ForceUnlock, BeginForceUnlock, SlashTokensFromLockByID (+ the CL burn variant), "
+          "AddTokensToLockByID under a synthetic lock, RebuildAccumulationStoreForDenom / RebuildSuperfluidAccumulationStoresForDenom",
+  "trusted_base": ["cosmos-sdk bank keeper (modelled as a ledger)", "osmoutils/sumtree Increase/Decrease/SubsetAccumulation (modelled as a map; C16; "
+                   "the engine queries the real tree at every leaf boundary after every transaction)",
+                   "byte encoding of the index keys is order-preserving and prefix-free (symbolic keys in the model; the engine decodes every real key)",
+                   "the number of CL shares minted for a position (CL arithmetic, C03/C07) is an input of the model's clLock operation"],
+  "assumptions": ["synthetic locks (superfluid) are not modelled in Lean; locks with synthetic locks cannot begin unlocking and appear only in the engine's oracle-only keeper tail",
+                  "theorems cover message-reachable states plus the CL keeper's share locks: one denomination per lock (MsgLockTokens.ValidateBasic); keeper CreateLock with several denominations "
                   "and AddTokensToLockByID with a foreign denomination break index exactness (witness theorems, not reachable through messages)",
+                  "per-owner conservation (balance + locked = funded) is stated for denominations without the CL share prefix; for CL share denominations the statement is "
+                  "`cl_shares_never_paid_out` (no account balance ever grows) together with module balance = sum of live locks",
                   "denominations none of which is a proper prefix of another (the *BeforeTimeDenom/ShorterDuration range iterators would include longer denominations; unused by any query)"],
   "explanation": "invariant (module balance = sum of live locks; accumulation(d) = sum over ALL live locks, unlocking or not, with duration >= d; index entries = "
-                 "exactly addLockRefs' keys of every live lock) proved inductive over every operation and hence for every history; 13 keeper queries proved exact; "
-                 "per-owner conservation; balance can rise only by the owner's own matured locks (unmatured locked amount never decreases); failed op is a no-op; "
-                 "model tied to the real msg server/keeper by differential run",
+                 "exactly addLockRefs' keys of every live lock) proved inductive over every operation (incl. CL share locks: minted in, burned out) and hence for every "
+                 "history; 13 keeper queries proved exact; per-owner conservation; balance can rise only by the owner's own matured locks (unmatured locked amount never "
+                 "decreases); CL shares never reach an account; failed op is a no-op; model tied to the real msg server/keeper by differential run",
  },
  "C03": {
   "modules": ["OsmoVerif.Props.C03"],
